@@ -308,6 +308,10 @@ pre_affinity_remote(struct emu *emu)
 		return -1;
 	}
 
+	/* The thread is already there (as in pre_affinity_set) */
+	if (remote_th->cpu == newcpu)
+		return 0;
+
 	if (cpu_migrate_thread(remote_th->cpu, remote_th, newcpu) != 0) {
 		err("cpu_migrate_thread() failed");
 		return -1;
